@@ -322,6 +322,12 @@ BodyPubV5(time, algo, material) == <<5>> \o BE32(time[1], time[2]) \o <<algo>> \
 MPIs(ms) == Flat([i \in 1..Len(ms) |-> MPI(ms[i])])
 ECMaterial(algo, oid, point, kdfhash, kdfsym) ==
   <<Len(oid)>> \o oid \o MPI(point) \o (IF algo = 18 THEN <<3, 1, kdfhash, kdfsym>> ELSE <<>>)
+(* 5.5.3 secret key / secret subkey bodies: the public key body, then the secret part.                       *)
+(* usage octet 0: secret MPIs in the clear, two-octet sum of their octets;                                     *)
+(* usage octet 254: cipher, S2K specifier (3 = iterated+salted, hash, 8 salt octets, coded count), IV,         *)
+(*                  CFB-encrypted (secret MPIs || 20-octet SHA-1 of them)                                      *)
+SecretClear(ms) == <<0>> \o MPIs(ms) \o BE(SumOctets(MPIs(ms)), 2)
+SecretS2K254Head(sym, hash, salt, count, iv) == <<254, sym, 3, hash>> \o salt \o <<count>> \o iv
 PktUid(uid) == Packet(13, uid)
 PktLit(time, data) == Packet(11, <<98, 0>> \o BE32(time[1], time[2]) \o data)     \* 'b', no file name, date
 PktSed(data) == Packet(9, data)
